@@ -60,8 +60,8 @@ func sel(g h.GroupSpec) map[string]string {
 	return map[string]string{g.Opts.LabelKey: g.Opts.LabelValue}
 }
 
-func sp(s string) *string                    { return &s }
-func dp(d time.Duration) *time.Duration      { return &d }
+func sp(s string) *string               { return &s }
+func dp(d time.Duration) *time.Duration { return &d }
 func podOn(g h.GroupSpec, node string, cpu int64) sim.PodOpt {
 	return sim.PodOpt{Node: node, CPUMilli: cpu, MemBytes: 64 << 20, Selector: sel(g)}
 }
@@ -265,6 +265,16 @@ func evRefreshDown() h.Event {
 	return h.Event{Label: "every-refresh-of-this-scan-fails", Apply: func(hh *h.Hist) { hh.SlotFlags["refresh-down"] = true }}
 }
 
+// evReplaceInstance: the ASG replaces the instance behind the node; the new machine registers a fresh
+// node (under the old name when keepName is set).
+func evReplaceInstance(node string, keepName bool) h.Event {
+	label := "instance-replaced(" + node + ")"
+	if keepName {
+		label = "instance-replaced-same-node-name(" + node + ")"
+	}
+	return h.Event{Label: label, Apply: func(hh *h.Hist) { hh.W.ReplaceInstance(node, keepName) }}
+}
+
 // evVanishFromStore: the Node object disappears from the API server right after the informer view
 // was taken (the scan still lists it; every call on it answers NotFound).
 func evVanishFromStore(node string) h.Event {
@@ -314,6 +324,15 @@ func evASGEdit(asg string, min, max int64) h.Event {
 }
 
 // softOf / hardOf / coolOf parse the configured durations.
-func softOf(g *h.GroupSpec) time.Duration { d, _ := time.ParseDuration(g.Opts.SoftDeleteGracePeriod); return d }
-func hardOf(g *h.GroupSpec) time.Duration { d, _ := time.ParseDuration(g.Opts.HardDeleteGracePeriod); return d }
-func coolOf(g *h.GroupSpec) time.Duration { d, _ := time.ParseDuration(g.Opts.ScaleUpCoolDownPeriod); return d }
+func softOf(g *h.GroupSpec) time.Duration {
+	d, _ := time.ParseDuration(g.Opts.SoftDeleteGracePeriod)
+	return d
+}
+func hardOf(g *h.GroupSpec) time.Duration {
+	d, _ := time.ParseDuration(g.Opts.HardDeleteGracePeriod)
+	return d
+}
+func coolOf(g *h.GroupSpec) time.Duration {
+	d, _ := time.ParseDuration(g.Opts.ScaleUpCoolDownPeriod)
+	return d
+}
